@@ -23,6 +23,7 @@ class CachedEmd(EmdStub):
     two marginals swaps the potentials (symmetric cost matrix)."""
 
     def emd2(self, a, b, M, log=False, **kw):
+        self.options += sorted(kw)
         ka = tuple(nf.pkey(nf.nf(sx.lift(x))) for x in a)
         kb = tuple(nf.pkey(nf.nf(sx.lift(x))) for x in b)
         self.cache = getattr(self, "cache", {})
@@ -111,6 +112,9 @@ class Invariance(SxContract):
         s0, g0 = out["base"]
         P = inp["P"]
         n, K = P.shape
+        if self.cls == "WassersteinGEMINI":
+            yield ("ot.emd2 is called with the library's default solver options (precondition of its assumed optimality contract: no iteration cap, "
+                   "no alternative solver)"), prove.holds(not self.stub.options, f"options passed: {sorted(set(self.stub.options))}")
         if self.what == "perm-rows":
             for idx, (s, g) in out["perm"]:
                 yield f"score invariant under row swap {idx}", prove.eq(s, s0)
